@@ -138,4 +138,11 @@ def allPosition (s : Airplanes P D) : List (Nat × P) :=
   s.filterMap (fun kv => kv.2.coords.pos.map (fun p => (kv.1, p)))
 
 end
+/-- `incr_messages`: the message counter in `u32` arithmetic as written today (`saturating_add(1)`). The tracker model above counts in `Nat`;
+the two agree while fewer than 2^32 − 1 frames have been counted for the record (`count_agrees_below` in `Theorems/C01`), beyond that the
+implementation stays at `u32::MAX` -/
+def incrCount (n : Nat) : Res Nat := .ok (min (n + 1) u32Max)
+/-- the same before the repair (`num_messages += 1`, checked because the workspace builds with `overflow-checks = true`) -/
+def incrCountOld (n : Nat) : Res Nat := if n + 1 > u32Max then .panic "rsadsb_common lib.rs: attempt to add with overflow" else .ok (n + 1)
+
 end Adsb
